@@ -3,6 +3,8 @@
   conversions between `String` and UTF-8 byte lists.
   No Mathlib import anywhere under Model/ or Spec/ (they are compiled into the driver).
 -/
+deriving instance DecidableEq for Except
+
 namespace Mqtt
 
 /-- A `bytearray`/`bytes` value: a list of Python ints. Well-formedness (`< 256`) is a proved
